@@ -116,6 +116,16 @@ pub(in crate::layer) fn delete_layer<P: AsRef<Path>>(
     default_on_not_found(remove_dir_recursively(&layer_dir))?;
     default_on_not_found(fs::remove_file(layer_toml))?;
 
+    // The lifecycle restores the SBOM files of a cached layer next to its directory. They describe
+    // the deleted contents and must not be attributed to whatever is written to the layer next.
+    for format in SBOM_FORMATS {
+        default_on_not_found(fs::remove_file(cnb_sbom_path(
+            format,
+            layers_dir.as_ref(),
+            layer_name,
+        )))?;
+    }
+
     Ok(())
 }
 
